@@ -25,8 +25,8 @@ import (
 	"math/big"
 	"math/rand"
 	"sort"
-	"sync"
 	"strings"
+	"sync"
 	"sync/atomic"
 	"time"
 
